@@ -408,3 +408,24 @@ for _k, _v in {
     'C20': ' A 2,500-row station table; box arguments written with 70 digits.',
 }.items():
     ADDENDA[_k] = ADDENDA.get(_k, '') + _v
+
+# round 14 (special values)
+for _k, _v in {
+    'C01': ' Sizes as indexes (Python and numpy integers); native indexes with a fractional component.',
+    'C04': ' Points exactly on cell corners and sides, the outer border included.',
+    'C07': ' Geometries that meet the dataset only along its outer border or at a corner.',
+    'C08': ' Fill values at the limits of the stored integer type (int64, int32, unsigned bytes).',
+    'C09': ' Fill values at the limits of the stored integer type; a bounds attribute padded with blanks.',
+    'C10': ' Supplied tables whose fill value is the element count, rows written from the closing edge.',
+    'C11': ' An ems_version attribute that is empty or zero; rotated-pole axes ahead of the true coordinates.',
+    'C12': ' Zero, negative zero, numbers equal to the remembered fill value and beyond single precision at the sea floor.',
+    'C13': ' Unsigned and narrow signed depth coordinates with steps that do not fit the type; one known finding (negation that does not fit).',
+    'C14': ' A face whose row of the table is padding only.',
+    'C15': ' The only invalid cell is the first one.',
+    'C16': ' Face coordinates named with other white space; empty selections along one axis.',
+    'C17': ' No and one time step.',
+    'C18': ' Paths that stay in cell 0; a grid of 0.001 degree cells at 150 E.',
+    'C19': ' The only invalid cell is the first one; missing centres in the second and the last row of a column.',
+    'C20': " The format choice 'auto' written out; text cells with leading blanks.",
+}.items():
+    ADDENDA[_k] = ADDENDA.get(_k, '') + _v
